@@ -92,7 +92,7 @@ def cfg_for(name, thorough):
 def run_models(thorough):
     jobs = {}
     sc = vlib.scratch()
-    with concurrent.futures.ThreadPoolExecutor(max_workers=5) as ex:
+    with concurrent.futures.ThreadPoolExecutor(max_workers=6) as ex:
         for n in MC_CFGS + list(WITNESS) + GEN_CFGS:
             jobs[n] = ex.submit(tlc_to_file, cfg_for(n, thorough), os.path.join(sc, n + ".out"), 3, 1750 if thorough else 1500)
     res = {}
